@@ -1,8 +1,9 @@
 // Correspondence and property-directed harness for ldclabs/cose.
 // Each stream drives the real library on seeded inputs and writes
-//   <out>/<stream>.json      statistics, samples, oracle failures, case lines
-//   <out>/<stream>_N_cases.v the observed outcomes as a Coq file that evaluates
-//                            the model on the same inputs (correspondence).
+//
+//	<out>/<stream>.json      statistics, samples, oracle failures, case lines
+//	<out>/<stream>_N_cases.v the observed outcomes as a Coq file that evaluates
+//	                         the model on the same inputs (correspondence).
 package main
 
 import (
